@@ -74,7 +74,10 @@ int main(int argc, char** argv) {
   gmInstantiate(&parent, NULL);
 #endif
   initPages = gm_mem(&parent)->pages; maxPages = gm_mem(&parent)->maxPages;
-  for (t = 0; t < nthreads; t++) child[t] = (gmInstance*)parent.common.newChild((wasmModuleInstance*)&parent);
+  /* an instance FAMILY, as thread-spawn builds it: some threads were spawned by the root, others by already spawned threads
+     (children of children, up to a chain of three generations and more) */
+  for (t = 0; t < nthreads; t++) { wasmModuleInstance* from = (t % 3 == 0 || t == 0) ? (wasmModuleInstance*)&parent : (wasmModuleInstance*)child[t - 1];
+    child[t] = (gmInstance*)from->newChild(from); }
   gseed = seed;
   for (t = 0; t < nthreads; t++) pthread_create(&th[t], NULL, run, (void*)(long)t);
   for (t = 0; t < nthreads; t++) pthread_join(th[t], NULL);
